@@ -1,14 +1,17 @@
 // C01 whole-exporter harness (package exporterhelper/internal, injected by overlay; oracle only).
-// The REAL sender chain built by NewBaseExporter — persistent sending queue (asyncQueue consumers,
-// persistentQueue, obs queue) -> obsReport sender -> retry sender -> timeout sender -> destination — over a
-// map-backed storage extension.  First incarnation: the destination fails most requests with retryable
-// errors (a few succeed, a few fail permanently), one export call may be blocked; once every consumer is
-// occupied the exporter is shut down with BaseExporter.Shutdown (retry sender first, then the queue) while
-// requests sit in the back-off and/or inside the export call.  Second incarnation on the same storage with a
-// healthy destination.
-// Direct oracle: Shutdown returns; every request accepted by Send was exported successfully at some point or
-// was refused permanently by the destination — i.e. a hand-off interrupted by the shutdown left the request
-// stored and the next start handed it to the export function again.
+// The REAL sender chains built by NewBaseExporter — persistent sending queue (asyncQueue consumers,
+// persistentQueue, obs queue, disabled or default batcher) -> obsReport sender -> retry sender -> timeout sender
+// -> destination — for 1-3 exporters at once (the same component ID used for several signals, and a second
+// component ID) on ONE storage extension double that, like file_storage, hands out one client per
+// (kind, component id, storage name).  Requests are lists of unique item ids; with sending_queue::batch
+// (items sizer, max_size) one stored request is exported in several pieces and small requests are merged.
+// First incarnation: the destinations fail items with retryable errors (short or one-hour back-off), refuse
+// some permanently, accept some; one export call may be blocked; once every worker is occupied every exporter
+// is shut down with BaseExporter.Shutdown while pieces sit in the back-off / inside the export call.  Second
+// incarnation on the same storage with healthy destinations.
+// Direct oracle: Shutdown returns; every ITEM of every request accepted by Send reaches the export function of
+// ITS OWN exporter successfully at some point, or was refused permanently by it; after the first shutdown every
+// other item is still stored under its exporter's client; no two queues share a storage client.
 package internal
 
 import (
@@ -26,13 +29,14 @@ import (
 	"go.opentelemetry.io/collector/config/configretry"
 	"go.opentelemetry.io/collector/consumer/consumererror"
 	"go.opentelemetry.io/collector/exporter/exporterhelper/internal/hosttest"
+	"go.opentelemetry.io/collector/exporter/exporterhelper/internal/queuebatch"
 	"go.opentelemetry.io/collector/exporter/exporterhelper/internal/request"
-	"go.opentelemetry.io/collector/exporter/exporterhelper/internal/requesttest"
 	"go.opentelemetry.io/collector/exporter/exportertest"
 	"go.opentelemetry.io/collector/extension/xextension/storage"
 	"go.opentelemetry.io/collector/pipeline"
 )
 
+// ---- storage extension double: one client per (kind, component id, storage name) ---------------------
 type vXClient struct {
 	mu sync.Mutex
 	m  map[string][]byte
@@ -66,115 +70,240 @@ func (c *vXClient) Batch(_ context.Context, ops ...*storage.Operation) error {
 	return c.do(ops...)
 }
 func (c *vXClient) Close(context.Context) error { return nil }
-func (c *vXClient) bodies() []uint64 {
+
+// item ids stored in the bodies of this client
+func (c *vXClient) storedItems() map[uint64]bool {
 	c.mu.Lock()
 	defer c.mu.Unlock()
-	var ids []uint64
+	res := map[uint64]bool{}
 	for k, b := range c.m {
-		if _, err := strconv.ParseUint(k, 10, 64); err == nil && len(b) >= 8 {
-			ids = append(ids, binary.LittleEndian.Uint64(b))
+		if _, err := strconv.ParseUint(k, 10, 64); err != nil {
+			continue
+		}
+		if r, err := (vXEnc{}).Unmarshal(b); err == nil {
+			for _, it := range r.(*vReq).items {
+				res[it] = true
+			}
 		}
 	}
-	sort.Slice(ids, func(a, b int) bool { return ids[a] < ids[b] })
-	return ids
+	return res
 }
 
 type vXExt struct {
 	component.StartFunc
 	component.ShutdownFunc
-	cl storage.Client
+	mu      sync.Mutex
+	clients map[string]*vXClient
+	handed  map[string]int // client key -> GetClient calls in the current incarnation
 }
 
-func (e *vXExt) GetClient(context.Context, component.Kind, component.ID, string) (storage.Client, error) {
-	return e.cl, nil
+func (e *vXExt) GetClient(_ context.Context, kind component.Kind, id component.ID, name string) (storage.Client, error) {
+	key := kind.String() + "|" + id.String() + "|" + name
+	e.mu.Lock()
+	defer e.mu.Unlock()
+	cl := e.clients[key]
+	if cl == nil {
+		cl = &vXClient{m: map[string][]byte{}}
+		e.clients[key] = cl
+	}
+	e.handed[key]++
+	return cl, nil
+}
+
+// ---- requests: lists of unique item ids ---------------------------------------------------------------
+type vReq struct{ items []uint64 }
+
+func (r *vReq) ItemsCount() int { return len(r.items) }
+
+// the current batch (r) first, then the new request (r2); pieces of at most maxSize items
+func (r *vReq) MergeSplit(_ context.Context, maxSize int, _ request.SizerType, r2 request.Request) ([]request.Request, error) {
+	all := append([]uint64{}, r.items...)
+	if r2 != nil {
+		all = append(all, r2.(*vReq).items...)
+	}
+	if maxSize <= 0 || len(all) <= maxSize {
+		return []request.Request{&vReq{items: all}}, nil
+	}
+	var res []request.Request
+	for len(all) > 0 {
+		n := maxSize
+		if len(all) < n {
+			n = len(all)
+		}
+		res = append(res, &vReq{items: append([]uint64{}, all[:n]...)})
+		all = all[n:]
+	}
+	return res, nil
 }
 
 type vXEnc struct{}
 
 func (vXEnc) Marshal(r request.Request) ([]byte, error) {
-	return binary.LittleEndian.AppendUint64(nil, uint64(r.ItemsCount())), nil
+	vr, ok := r.(*vReq)
+	if !ok {
+		return nil, errors.New("not a vReq")
+	}
+	b := binary.LittleEndian.AppendUint64(nil, uint64(len(vr.items)))
+	for _, it := range vr.items {
+		b = binary.LittleEndian.AppendUint64(b, it)
+	}
+	return b, nil
 }
+
 func (vXEnc) Unmarshal(b []byte) (request.Request, error) {
 	if len(b) < 8 {
 		return nil, errors.New("short body")
 	}
-	return &requesttest.FakeRequest{Items: int(binary.LittleEndian.Uint64(b))}, nil
+	n := int(binary.LittleEndian.Uint64(b))
+	if len(b) < 8+8*n {
+		return nil, errors.New("short body")
+	}
+	r := &vReq{}
+	for i := 0; i < n; i++ {
+		r.items = append(r.items, binary.LittleEndian.Uint64(b[8+8*i:]))
+	}
+	return r, nil
 }
 
-// the destination: behaviour per request id, shared by the incarnations of one history
-type vDest struct {
+// ---- one exporter of a history -------------------------------------------------------------------------
+type vXP struct {
+	idx       int
+	id        component.ID
+	signal    pipeline.Signal
+	consumers int
+	batch     *queuebatch.BatchConfig
+	longDelay bool
+
 	mu        sync.Mutex
 	healthy   bool
-	kind      map[int]int // 0 ok, 1 permanent, 2 retryable, 3 retryable + the first call blocks
-	attempts  map[int]int
-	succeeded map[int]bool
-	permanent map[int]bool
-	afterStop map[int]int // export calls started after Shutdown was called
 	stopping  bool
-	blocked   chan struct{} // closed when the blocking call is inside the export function
+	kind      map[uint64]int // per item: 0 ok, 1 refused permanently, 2 retryable
+	blockReq  int            // request number whose first export call blocks (0 = none)
+	delivered map[uint64]bool
+	permanent map[uint64]bool
+	foreign   []uint64     // items of ANOTHER exporter handed to this export function
+	busyReqs  map[int]bool // requests that had a piece answered with a retryable error
+	calls     int
+	afterStop int
+	blocked   chan struct{}
 	release   chan struct{}
 	blockOnce sync.Once
-	longDelay bool
+	accepted  map[uint64]bool // items of requests accepted by Send
+	be        *BaseExporter
 }
 
-func (d *vDest) export(_ context.Context, req request.Request) error {
-	id := req.ItemsCount()
-	d.mu.Lock()
-	d.attempts[id]++
-	first := d.attempts[id] == 1
-	if d.stopping {
-		d.afterStop[id]++
+func vItem(ex, req, k int) uint64 { return uint64(ex)*1_000_000 + uint64(req)*100 + uint64(k) }
+func vItemEx(it uint64) int       { return int(it / 1_000_000) }
+func vItemReq(it uint64) int      { return int(it % 1_000_000 / 100) }
+
+func (p *vXP) export(_ context.Context, req request.Request) error {
+	r, ok := req.(*vReq)
+	if !ok {
+		return consumererror.NewPermanent(errors.New("harness: unknown request type"))
 	}
-	healthy := d.healthy
-	kind := d.kind[id]
-	d.mu.Unlock()
-	if !healthy && kind == 3 && first {
-		d.blockOnce.Do(func() { close(d.blocked) })
-		<-d.release
-		d.mu.Lock()
-		healthy = d.healthy
-		d.mu.Unlock()
+	p.mu.Lock()
+	p.calls++
+	if p.stopping {
+		p.afterStop++
 	}
-	if healthy || kind == 0 {
-		d.mu.Lock()
-		d.succeeded[id] = true
-		d.mu.Unlock()
+	block := false
+	for _, it := range r.items {
+		if vItemEx(it) != p.idx {
+			p.foreign = append(p.foreign, it)
+		} else if !p.healthy && p.blockReq != 0 && vItemReq(it) == p.blockReq {
+			block = true
+		}
+	}
+	p.mu.Unlock()
+	if block {
+		first := false
+		p.blockOnce.Do(func() { first = true; close(p.blocked) })
+		if first {
+			<-p.release
+		}
+	}
+	p.mu.Lock()
+	defer p.mu.Unlock()
+	cls := 0
+	if !p.healthy {
+		for _, it := range r.items {
+			if k := p.kind[it]; k > cls {
+				cls = k
+			}
+		}
+	}
+	switch cls {
+	case 0:
+		for _, it := range r.items {
+			p.delivered[it] = true
+		}
 		return nil
-	}
-	if kind == 1 {
-		d.mu.Lock()
-		d.permanent[id] = true
-		d.mu.Unlock()
+	case 1:
+		for _, it := range r.items {
+			p.permanent[it] = true // the destination refused this piece for good
+		}
 		return consumererror.NewPermanent(errors.New("bad data"))
+	default:
+		for _, it := range r.items {
+			if p.kind[it] == 2 {
+				p.busyReqs[vItemReq(it)] = true
+			}
+		}
+		if p.longDelay {
+			return NewThrottleRetry(errors.New("destination unavailable"), time.Hour)
+		}
+		return errors.New("destination unavailable")
 	}
-	if d.longDelay {
-		return NewThrottleRetry(errors.New("destination unavailable"), time.Hour)
-	}
-	return errors.New("destination unavailable")
 }
 
-func vNewExporter(dest *vDest, cl storage.Client, consumers int) (*BaseExporter, component.Host, error) {
+func (p *vXP) build() error {
 	storageID := component.MustNewID("vstore")
 	qCfg := NewDefaultQueueConfig()
 	qCfg.StorageID = &storageID
-	qCfg.NumConsumers = consumers
-	qCfg.QueueSize = 100
+	qCfg.NumConsumers = p.consumers
+	qCfg.QueueSize = 100000
+	if p.batch != nil {
+		qCfg.Sizer = request.SizerTypeItems
+		b := *p.batch
+		qCfg.Batch = &b
+	}
 	rCfg := configretry.NewDefaultBackOffConfig()
 	rCfg.InitialInterval = 2 * time.Millisecond
 	rCfg.MaxInterval = 5 * time.Millisecond
 	rCfg.RandomizationFactor = 0
-	rCfg.MaxElapsedTime = 0 // retry for ever: the only final outcomes are success and a permanent error
-	be, err := NewBaseExporter(exportertest.NewNopSettings(exportertest.NopType), pipeline.SignalTraces, dest.export,
+	rCfg.MaxElapsedTime = 0 // retry for ever: the only final outcomes are success and a permanent refusal
+	set := exportertest.NewNopSettings(exportertest.NopType)
+	set.ID = p.id
+	be, err := NewBaseExporter(set, p.signal, p.export,
 		WithQueueBatch(qCfg, QueueBatchSettings[request.Request]{
 			Encoding: vXEnc{},
-			Sizers:   map[request.SizerType]request.Sizer[request.Request]{request.SizerTypeRequests: request.RequestsSizer[request.Request]{}},
+			Sizers: map[request.SizerType]request.Sizer[request.Request]{
+				request.SizerTypeRequests: request.RequestsSizer[request.Request]{},
+				request.SizerTypeItems:    request.NewItemsSizer(),
+			},
 		}),
 		WithRetry(rCfg))
-	if err != nil {
-		return nil, nil, err
-	}
-	host := hosttest.NewHost(map[component.ID]component.Component{storageID: &vXExt{cl: cl}})
-	return be, host, nil
+	p.be = be
+	return err
+}
+
+func (p *vXP) clientKey() string {
+	return component.KindExporter.String() + "|" + p.id.String() + "|" + p.signal.String()
+}
+
+// oracle failures are flushed at once (a broken tree can run into the go test timeout) and counted: after a few
+// failing histories the harness stops, so that a broken tree is reported quickly
+type vXOut struct {
+	*vOut
+	failures int
+}
+
+func (o *vXOut) Oracle(kind, term, detail string) {
+	o.vOut.Oracle(kind, term, detail)
+	o.vOut.mu.Lock()
+	o.vOut.w.Flush()
+	o.vOut.mu.Unlock()
+	o.failures++
 }
 
 func vShutdownWithin(be *BaseExporter, d time.Duration) (chan error, bool) {
@@ -190,168 +319,343 @@ func vShutdownWithin(be *BaseExporter, d time.Duration) (chan error, bool) {
 }
 
 func TestVerifC01Exporter(t *testing.T) {
-	out := vOpen()
-	defer out.Close()
+	out0 := vOpen()
+	defer out0.Close()
+	out := &vXOut{vOut: out0}
 	rng := vNewRand(11)
 	n := vBudget(40, 6)
-	for h := 0; h < n; h++ {
-		cl := &vXClient{m: map[string][]byte{}}
-		consumers := 1 + rng.Intn(4)
-		nreq := 3 + rng.Intn(6)
-		dest := &vDest{kind: map[int]int{}, attempts: map[int]int{}, succeeded: map[int]bool{}, permanent: map[int]bool{},
-			afterStop: map[int]int{}, blocked: make(chan struct{}), release: make(chan struct{}), longDelay: rng.Intn(2) == 0}
-		retryable := 0
-		blocker := 0
-		for id := 1; id <= nreq; id++ {
-			k := rng.Pick(2, 1, 7)
-			if h < 4 {
-				k = 2 // the first histories: everything fails with a retryable error
+	idA := component.MustNewIDWithName("vexp", "a")
+	idB := component.MustNewIDWithName("vexp", "b")
+	combos := [][]struct {
+		id  component.ID
+		sig pipeline.Signal
+	}{
+		{{idA, pipeline.SignalTraces}},
+		{{idA, pipeline.SignalTraces}, {idA, pipeline.SignalMetrics}},
+		{{idA, pipeline.SignalLogs}, {idB, pipeline.SignalLogs}},
+		{{idA, pipeline.SignalTraces}, {idA, pipeline.SignalLogs}, {idB, pipeline.SignalTraces}},
+	}
+	failingHistories := 0
+	for h := 0; h < n && failingHistories < 3; h++ {
+		if out.failures > 0 {
+			failingHistories++
+			out.failures = 0
+		}
+		ext := &vXExt{clients: map[string]*vXClient{}, handed: map[string]int{}}
+		host := hosttest.NewHost(map[component.ID]component.Component{component.MustNewID("vstore"): ext})
+		combo := combos[rng.Pick(3, 3, 2, 2)]
+		if h < 4 {
+			combo = combos[h]
+		}
+		var ps []*vXP
+		term := fmt.Sprintf("history=%d seed=%d", h, vEnvInt("VERIF_SEED", 20260926))
+		for ei, cb := range combo {
+			p := &vXP{idx: ei + 1, id: cb.id, signal: cb.sig, consumers: 1 + rng.Intn(4), longDelay: rng.Intn(2) == 0,
+				kind: map[uint64]int{}, delivered: map[uint64]bool{}, permanent: map[uint64]bool{}, busyReqs: map[int]bool{},
+				blocked: make(chan struct{}), release: make(chan struct{}), accepted: map[uint64]bool{}}
+			if rng.Intn(2) == 0 {
+				p.batch = &queuebatch.BatchConfig{FlushTimeout: 5 * time.Millisecond, MinSize: int64(rng.Pick(3, 1) * 2), MaxSize: int64(2 + rng.Intn(3))}
 			}
-			if k == 2 {
-				retryable++
-				if blocker == 0 && retryable <= consumers && rng.Intn(2) == 0 {
-					k, blocker = 3, id
+			ps = append(ps, p)
+			term += fmt.Sprintf(" | exporter%d id=%s signal=%s consumers=%d long_backoff=%v", p.idx, p.id, p.signal, p.consumers, p.longDelay)
+			if p.batch != nil {
+				term += fmt.Sprintf(" batch(min=%d,max=%d)", p.batch.MinSize, p.batch.MaxSize)
+			}
+		}
+		// requests and item kinds
+		type sendT struct {
+			p   *vXP
+			req int
+			r   *vReq
+		}
+		var sends []sendT
+		for _, p := range ps {
+			nreq := 3 + rng.Intn(5)
+			for q := 1; q <= nreq; q++ {
+				ni := 1
+				if p.batch != nil {
+					ni = 1 + rng.Intn(6)
+				}
+				pattern := rng.Pick(2, 1, 5, 3, 2) // all ok | all refused | all retryable | refused then retryable | random
+				if h < 4 {
+					pattern = 2
+				}
+				r := &vReq{}
+				for k := 0; k < ni; k++ {
+					it := vItem(p.idx, q, k)
+					kd := 0
+					switch pattern {
+					case 1:
+						kd = 1
+					case 2:
+						kd = 2
+					case 3:
+						kd = 2
+						if k < (ni+1)/2 && ni > 1 {
+							kd = 1
+						}
+					case 4:
+						kd = rng.Pick(1, 1, 2)
+					}
+					p.kind[it] = kd
+					r.items = append(r.items, it)
+				}
+				sends = append(sends, sendT{p, q, r})
+			}
+			// one request whose first export call blocks (only without the batcher, where a piece is a request)
+			if p.batch == nil && rng.Intn(2) == 0 {
+				for _, s := range sends {
+					if s.p == p && p.kind[s.r.items[0]] == 2 && s.req <= p.consumers {
+						p.blockReq = s.req
+						break
+					}
 				}
 			}
-			dest.kind[id] = k
 		}
-		releaseFirst := rng.Intn(3) == 0 // the blocked call returns before the shutdown begins (then it is in the back-off)
-		term := fmt.Sprintf("history=%d consumers=%d requests=%d kinds=%v long_backoff=%v blocker=%d release_first=%v seed=%d",
-			h, consumers, nreq, dest.kind, dest.longDelay, blocker, releaseFirst, vEnvInt("VERIF_SEED", 20260926))
-		be, host, err := vNewExporter(dest, cl, consumers)
-		if err != nil {
-			t.Fatal(err)
-		}
-		if err := be.Start(context.Background(), host); err != nil {
-			t.Fatal(err)
-		}
-		accepted := map[int]bool{}
-		for id := 1; id <= nreq; id++ {
-			if err := be.Send(context.Background(), &requesttest.FakeRequest{Items: id}); err == nil {
-				accepted[id] = true
+		// interleave the exporters' requests (each exporter's own order is kept)
+		{
+			per := map[*vXP][]sendT{}
+			for _, s := range sends {
+				per[s.p] = append(per[s.p], s)
+			}
+			sends = sends[:0]
+			for {
+				var live []*vXP
+				for _, p := range ps {
+					if len(per[p]) > 0 {
+						live = append(live, p)
+					}
+				}
+				if len(live) == 0 {
+					break
+				}
+				p := live[rng.Intn(len(live))]
+				sends = append(sends, per[p][0])
+				per[p] = per[p][1:]
 			}
 		}
-		// steady state: min(consumers, retryable) retryable requests are in flight (each holds a consumer)
-		want := retryable
-		if consumers < want {
-			want = consumers
+		for _, p := range ps {
+			if err := p.build(); err != nil {
+				t.Fatal(err)
+			}
+			if err := p.be.Start(context.Background(), host); err != nil {
+				t.Fatal(err)
+			}
 		}
-		deadline := time.Now().Add(60 * time.Second)
-		for {
-			dest.mu.Lock()
-			inflight := 0
-			for id, k := range dest.kind {
-				if k >= 2 && dest.attempts[id] > 0 {
-					inflight++
+		// no two queues may share a storage client
+		vCheckClients := func(stage string) {
+			ext.mu.Lock()
+			defer ext.mu.Unlock()
+			want := map[string]bool{}
+			for _, p := range ps {
+				want[p.clientKey()] = true
+			}
+			for key, cnt := range ext.handed {
+				if cnt > 1 {
+					out.Oracle("exporter-storage-client-shared-by-queues", term, fmt.Sprintf("%s: client %q was handed out %d times to %d queues", stage, key, cnt, len(ps)))
+				}
+				if !want[key] {
+					out.Oracle("exporter-storage-client-name", term, fmt.Sprintf("%s: unexpected client %q (expected one of %v)", stage, key, want))
 				}
 			}
-			dest.mu.Unlock()
-			if inflight >= want {
+			ext.handed = map[string]int{}
+		}
+		before := out.failures
+		vCheckClients("first start")
+		if out.failures > before {
+			// two queues on one storage client: whatever follows is noise; stop these exporters and go on
+			for _, p := range ps {
+				if _, ok := vShutdownWithin(p.be, 30*time.Second); !ok {
+					return
+				}
+			}
+			continue
+		}
+		for _, s := range sends {
+			if err := s.p.be.Send(context.Background(), &vReq{items: append([]uint64{}, s.r.items...)}); err == nil {
+				for _, it := range s.r.items {
+					s.p.accepted[it] = true
+				}
+			}
+		}
+		// steady state: every worker that can be occupied by a retryable piece is occupied
+		deadline := time.Now().Add(30 * time.Second)
+		for _, p := range ps {
+			retryReqs := map[int]bool{}
+			for it, k := range p.kind {
+				if k == 2 && p.accepted[it] {
+					retryReqs[vItemReq(it)] = true
+				}
+			}
+			workers := p.consumers
+			if p.batch != nil {
+				workers = 1
+			}
+			want := len(retryReqs)
+			if workers < want {
+				want = workers
+			}
+			for {
+				p.mu.Lock()
+				busy := len(p.busyReqs)
+				p.mu.Unlock()
+				select {
+				case <-p.blocked:
+					busy++
+				default:
+				}
+				if busy >= want {
+					break
+				}
+				if time.Now().After(deadline) {
+					out.Oracle("exporter-consumers-stuck", term, fmt.Sprintf("exporter%d: only %d of %d retryable requests were attempted within 30 s", p.idx, busy, want))
+					break
+				}
+				time.Sleep(200 * time.Microsecond)
+			}
+		}
+		hangs := false
+		for _, p := range ps {
+			releaseFirst := rng.Intn(3) == 0
+			if p.blockReq != 0 && releaseFirst {
+				close(p.release)
+			}
+			p.mu.Lock()
+			p.stopping = true
+			p.mu.Unlock()
+			wait := time.Millisecond
+			if p.blockReq != 0 && !releaseFirst {
+				wait = 50 * time.Millisecond // let Shutdown (retry sender first) run while the export call is still blocked
+			}
+			done, ok := vShutdownWithin(p.be, wait)
+			if p.blockReq != 0 && !releaseFirst {
+				close(p.release)
+			}
+			if !ok {
+				select {
+				case err := <-done:
+					done <- err
+					ok = true
+				case <-time.After(15 * time.Second):
+				}
+			}
+			if !ok {
+				p.mu.Lock()
+				detail := fmt.Sprintf("exporter%d: BaseExporter.Shutdown did not return within 15 s; export calls started after the shutdown began: %d", p.idx, p.afterStop)
+				p.healthy = true // let whatever still retries succeed so that the incarnation can end
+				p.mu.Unlock()
+				out.Oracle("exporter-shutdown-does-not-return", term, detail)
+				select {
+				case <-done:
+				case <-time.After(30 * time.Second):
+					out.Oracle("exporter-shutdown-does-not-return", term, "not even after the destination became healthy (a Send is asleep in its back-off)")
+					hangs = true
+				}
+			}
+			if hangs {
 				break
 			}
-			if time.Now().After(deadline) {
-				out.Oracle("exporter-consumers-stuck", term, fmt.Sprintf("only %d of %d retryable requests were attempted within 60 s", inflight, want))
+		}
+		if hangs {
+			return
+		}
+		out.Stat("exporter_histories", 1)
+		out.Stat(fmt.Sprintf("exporter_queues_%d", len(ps)), 1)
+		// after the shutdown: what is neither delivered nor refused must be stored under the exporter's own client
+		for _, p := range ps {
+			ext.mu.Lock()
+			cl := ext.clients[p.clientKey()]
+			ext.mu.Unlock()
+			stored := map[uint64]bool{}
+			if cl != nil {
+				stored = cl.storedItems()
+			}
+			p.mu.Lock()
+			for it := range p.accepted {
+				if !p.delivered[it] && !p.permanent[it] && !stored[it] {
+					out.Oracle("exporter-accepted-item-not-stored-after-shutdown", term,
+						fmt.Sprintf("exporter%d item=%d (request %d) kind=%d; export calls after the shutdown began: %d", p.idx, it, vItemReq(it), p.kind[it], p.afterStop))
+				}
+			}
+			if p.blockReq != 0 {
+				out.Stat("exporter_blocked_export_call", 1)
+			}
+			p.healthy = true
+			p.stopping = false
+			p.blockReq = 0
+			p.mu.Unlock()
+			if p.batch != nil {
+				out.Stat("exporter_with_batcher", 1)
+			}
+		}
+		// second incarnation, healthy destinations
+		for _, p := range ps {
+			if err := p.build(); err != nil {
+				t.Fatal(err)
+			}
+			if err := p.be.Start(context.Background(), host); err != nil {
+				t.Fatal(err)
+			}
+		}
+		vCheckClients("second start")
+		deadline = time.Now().Add(60 * time.Second)
+		for {
+			missing := 0
+			for _, p := range ps {
+				p.mu.Lock()
+				for it := range p.accepted {
+					if !p.delivered[it] && !p.permanent[it] {
+						missing++
+					}
+				}
+				p.mu.Unlock()
+			}
+			storedLeft := 0
+			ext.mu.Lock()
+			for _, cl := range ext.clients {
+				storedLeft += len(cl.storedItems())
+			}
+			ext.mu.Unlock()
+			if missing == 0 || storedLeft == 0 || time.Now().After(deadline) {
 				break
 			}
 			time.Sleep(200 * time.Microsecond)
 		}
-		if blocker != 0 && releaseFirst {
-			close(dest.release)
-		}
-		dest.mu.Lock()
-		dest.stopping = true
-		dest.mu.Unlock()
-		done, ok := vShutdownWithin(be, 100*time.Millisecond)
-		if blocker != 0 && !releaseFirst {
-			// the blocked export call returns only now: Shutdown (retry sender first) has been running for a while
-			close(dest.release)
-		}
-		if !ok {
-			select {
-			case err := <-done:
-				done <- err
-				ok = true
-			case <-time.After(15 * time.Second):
-			}
-		}
-		out.Stat("exporter_histories", 1)
-		out.Stat(fmt.Sprintf("exporter_consumers_%d", consumers), 1)
-		if blocker != 0 {
-			out.Stat(fmt.Sprintf("exporter_blocked_export_release_first_%v", releaseFirst), 1)
-		}
-		if !ok {
-			dest.mu.Lock()
-			detail := fmt.Sprintf("BaseExporter.Shutdown did not return within 15 s; export calls started after the shutdown began: %v", dest.afterStop)
-			dest.healthy = true // let whatever still retries succeed so that the incarnation can end
-			dest.mu.Unlock()
-			out.Oracle("exporter-shutdown-does-not-return", term, detail)
-			select {
-			case <-done:
-			case <-time.After(30 * time.Second):
-				out.Oracle("exporter-shutdown-does-not-return", term, "not even after the destination became healthy (a Send is asleep in its back-off)")
+		for _, p := range ps {
+			if _, ok := vShutdownWithin(p.be, 30*time.Second); !ok {
+				out.Oracle("exporter-shutdown-does-not-return", term, "second incarnation")
 				return
 			}
 		}
-		// what is stored now must cover every accepted request that is neither delivered nor permanently refused
-		stored := map[int]bool{}
-		for _, id := range cl.bodies() {
-			stored[int(id)] = true
-		}
-		dest.mu.Lock()
-		for id := range accepted {
-			if !dest.succeeded[id] && !dest.permanent[id] && !stored[id] {
-				out.Oracle("exporter-accepted-request-not-stored-after-shutdown", term,
-					fmt.Sprintf("id=%d kind=%d attempts=%d attempts_after_shutdown_began=%d", id, dest.kind[id], dest.attempts[id], dest.afterStop[id]))
-			}
-		}
-		dest.healthy = true
-		dest.stopping = false
-		dest.mu.Unlock()
-
-		// second incarnation, healthy destination
-		be2, host2, err := vNewExporter(dest, cl, consumers)
-		if err != nil {
-			t.Fatal(err)
-		}
-		if err := be2.Start(context.Background(), host2); err != nil {
-			t.Fatal(err)
-		}
-		deadline = time.Now().Add(60 * time.Second)
-		for {
-			dest.mu.Lock()
-			missing := 0
-			for id := range accepted {
-				if !dest.succeeded[id] && !dest.permanent[id] {
-					missing++
+		redelivered := 0
+		for _, p := range ps {
+			p.mu.Lock()
+			var lost []uint64
+			for it := range p.accepted {
+				if !p.delivered[it] && !p.permanent[it] {
+					lost = append(lost, it)
+				}
+				if p.kind[it] == 2 && p.delivered[it] {
+					redelivered++
 				}
 			}
-			dest.mu.Unlock()
-			if missing == 0 || time.Now().After(deadline) || len(cl.bodies()) == 0 {
-				break
-			}
-			time.Sleep(200 * time.Microsecond)
-		}
-		if _, ok := vShutdownWithin(be2, 30*time.Second); !ok {
-			out.Oracle("exporter-shutdown-does-not-return", term, "second incarnation")
-			return
-		}
-		dest.mu.Lock()
-		for id := 1; id <= nreq; id++ {
-			if accepted[id] && !dest.succeeded[id] && !dest.permanent[id] {
+			sort.Slice(lost, func(a, b int) bool { return lost[a] < lost[b] })
+			if len(lost) > 0 {
 				out.Oracle("exporter-accepted-request-lost", term,
-					fmt.Sprintf("id=%d kind=%d attempts=%d: never exported successfully, never refused permanently, not handed off after the restart", id, dest.kind[id], dest.attempts[id]))
+					fmt.Sprintf("exporter%d items %v: never exported successfully, never refused permanently, not handed off after the restart", p.idx, lost))
+			}
+			if len(p.foreign) > 0 {
+				out.Oracle("exporter-request-handed-to-another-exporter", term, fmt.Sprintf("exporter%d received items %v", p.idx, p.foreign))
+			}
+			p.mu.Unlock()
+		}
+		out.Stat("exporter_items_redelivered_after_restart", redelivered)
+		ext.mu.Lock()
+		for key, cl := range ext.clients {
+			if left := cl.storedItems(); len(left) != 0 {
+				out.Oracle("exporter-store-not-empty-after-healthy-incarnation", term, fmt.Sprintf("client %q still holds %d items", key, len(left)))
 			}
 		}
-		redelivered := 0
-		for id, k := range dest.kind {
-			if k >= 2 && dest.succeeded[id] {
-				redelivered++
-			}
-		}
-		dest.mu.Unlock()
-		out.Stat("exporter_requests_redelivered_after_restart", redelivered)
-		if left := cl.bodies(); len(left) != 0 {
-			out.Oracle("exporter-store-not-empty-after-healthy-incarnation", term, fmt.Sprintf("ids left: %v", left))
-		}
+		ext.mu.Unlock()
 	}
 }
